@@ -424,3 +424,347 @@ pub fn decode_prefix_cap(data: &[u8], cap: usize) -> (Vec<u8>, u8) {
 pub fn decode_prefix(data: &[u8]) -> (Vec<u8>, u8) {
     decode_prefix_cap(data, 64 * data.len() + (1 << 20))
 }
+
+// ------------------------------------------------------------------------------------------
+// A uniform view of "an encoder instance" over the Rust API and the C ABI, a driver for
+// *logical* scripts (each (operation, chunk) is repeated until it completes) and the
+// wrapper entry points.  Used by the C05 and C13 harnesses.
+// ------------------------------------------------------------------------------------------
+pub trait Enc {
+    fn set_param(&mut self, id: u32, v: u32) -> bool;
+    /// one stream call: returns (ret, consumed, produced bytes, total_out as reported through the argument)
+    fn stream(&mut self, op: u8, input: &[u8], out_cap: usize) -> (bool, usize, Vec<u8>, i64);
+    fn take(&mut self, n: usize) -> Vec<u8>;
+    fn finished(&mut self) -> bool;
+    fn more(&mut self) -> bool;
+    fn remaining_meta(&mut self) -> Option<usize> {
+        None
+    }
+}
+
+pub struct RustEnc<A: BrotliAlloc> {
+    pub st: BrotliEncoderStateStruct<A>,
+    pub total_out: Option<usize>,
+}
+impl<A: BrotliAlloc> RustEnc<A> {
+    pub fn new(a: A) -> Self {
+        RustEnc { st: BrotliEncoderStateStruct::new(a), total_out: Some(0) }
+    }
+}
+impl<A: BrotliAlloc> Drop for RustEnc<A> {
+    fn drop(&mut self) {
+        BrotliEncoderDestroyInstance(&mut self.st);
+    }
+}
+impl<A: BrotliAlloc> Enc for RustEnc<A> {
+    fn set_param(&mut self, id: u32, v: u32) -> bool {
+        self.st.set_parameter(param_of(id), v)
+    }
+    fn stream(&mut self, op: u8, input: &[u8], out_cap: usize) -> (bool, usize, Vec<u8>, i64) {
+        let mut outbuf = vec![0u8; out_cap];
+        let mut avail_in = input.len();
+        let mut in_off = 0usize;
+        let mut avail_out = out_cap;
+        let mut out_off = 0usize;
+        let mut nop = |_a: &mut brotli::interface::PredictionModeContextMap<brotli::InputReferenceMut>,
+                       _b: &mut [brotli::interface::StaticCommand],
+                       _c: brotli::interface::InputPair,
+                       _d: &mut A| ();
+        let r = self.st.compress_stream(
+            op_of(op),
+            &mut avail_in,
+            input,
+            &mut in_off,
+            &mut avail_out,
+            &mut outbuf,
+            &mut out_off,
+            &mut self.total_out,
+            &mut nop,
+        );
+        assert!(in_off <= input.len() && out_off <= out_cap && avail_in == input.len() - in_off && avail_out == out_cap - out_off, "cursor accounting");
+        outbuf.truncate(out_off);
+        (r, in_off, outbuf, self.total_out.map(|x| x as i64).unwrap_or(-1))
+    }
+    fn take(&mut self, n: usize) -> Vec<u8> {
+        let mut size = n;
+        let sl = self.st.take_output(&mut size).to_vec();
+        sl[..size].to_vec()
+    }
+    fn finished(&mut self) -> bool {
+        self.st.is_finished()
+    }
+    fn more(&mut self) -> bool {
+        self.st.has_more_output()
+    }
+    fn remaining_meta(&mut self) -> Option<usize> {
+        Some(if self.st.remaining_metadata_bytes_ == u32::MAX { 0 } else { self.st.remaining_metadata_bytes_ as usize })
+    }
+}
+
+/// The exported C functions, called exactly as a C program would (raw pointers, cursors).
+pub mod cabi {
+    use super::Enc;
+    use brotli::ffi::broccoli::c_void;
+    use brotli::ffi::compressor::*;
+    use std::cell::RefCell;
+    use std::collections::HashMap;
+
+    thread_local! {
+        pub static LEDGER: RefCell<HashMap<usize, usize>> = RefCell::new(HashMap::new());
+        pub static ALLOCS: RefCell<(usize, usize, usize)> = RefCell::new((0, 0, 0)); // allocs, frees, bad frees
+    }
+    pub extern "C" fn c_alloc(_opaque: *mut c_void, size: usize) -> *mut c_void {
+        let layout = std::alloc::Layout::from_size_align(size.max(1) + 32, 32).unwrap();
+        let p = unsafe { std::alloc::alloc_zeroed(layout) };
+        unsafe { *(p as *mut usize) = size };
+        let user = unsafe { p.add(32) };
+        LEDGER.with(|l| l.borrow_mut().insert(user as usize, size));
+        ALLOCS.with(|a| a.borrow_mut().0 += 1);
+        user as *mut c_void
+    }
+    pub extern "C" fn c_free(_opaque: *mut c_void, ptr: *mut c_void) {
+        if ptr.is_null() {
+            return;
+        }
+        let known = LEDGER.with(|l| l.borrow_mut().remove(&(ptr as usize)));
+        match known {
+            Some(size) => {
+                ALLOCS.with(|a| a.borrow_mut().1 += 1);
+                let layout = std::alloc::Layout::from_size_align(size.max(1) + 32, 32).unwrap();
+                unsafe { std::alloc::dealloc((ptr as *mut u8).sub(32), layout) };
+            }
+            None => ALLOCS.with(|a| a.borrow_mut().2 += 1),
+        }
+    }
+    pub struct CEnc {
+        pub st: *mut BrotliEncoderState,
+        pub custom: bool,
+    }
+    impl CEnc {
+        pub fn new(custom: bool) -> CEnc {
+            let st = unsafe {
+                if custom {
+                    BrotliEncoderCreateInstance(Some(c_alloc), Some(c_free), core::ptr::null_mut())
+                } else {
+                    BrotliEncoderCreateInstance(None, None, core::ptr::null_mut())
+                }
+            };
+            CEnc { st, custom }
+        }
+    }
+    impl Drop for CEnc {
+        fn drop(&mut self) {
+            unsafe { BrotliEncoderDestroyInstance(self.st) }
+        }
+    }
+    fn cparam(id: u32) -> brotli::enc::encode::BrotliEncoderParameter {
+        super::param_of(id)
+    }
+    fn cop(op: u8) -> BrotliEncoderOperation {
+        match op {
+            0 => BrotliEncoderOperation::BROTLI_OPERATION_PROCESS,
+            1 => BrotliEncoderOperation::BROTLI_OPERATION_FLUSH,
+            2 => BrotliEncoderOperation::BROTLI_OPERATION_FINISH,
+            _ => BrotliEncoderOperation::BROTLI_OPERATION_EMIT_METADATA,
+        }
+    }
+    impl Enc for CEnc {
+        fn set_param(&mut self, id: u32, v: u32) -> bool {
+            unsafe { BrotliEncoderSetParameter(self.st, cparam(id), v) != 0 }
+        }
+        fn stream(&mut self, op: u8, input: &[u8], out_cap: usize) -> (bool, usize, Vec<u8>, i64) {
+            let mut outbuf = vec![0u8; out_cap];
+            let mut avail_in = input.len();
+            let mut avail_out = out_cap;
+            // zero-length buffers are passed as null pointers, as C callers commonly do
+            let in_start: *const u8 = if input.is_empty() { core::ptr::null() } else { input.as_ptr() };
+            let out_start: *mut u8 = if out_cap == 0 { core::ptr::null_mut() } else { outbuf.as_mut_ptr() };
+            let mut next_in = in_start;
+            let mut next_out = out_start;
+            let mut total_out: usize = usize::MAX;
+            let r = unsafe {
+                BrotliEncoderCompressStream(self.st, cop(op), &mut avail_in, &mut next_in, &mut avail_out, &mut next_out, &mut total_out)
+            };
+            let in_adv = if input.is_empty() { if next_in == in_start { 0 } else { usize::MAX } } else { (next_in as usize).wrapping_sub(in_start as usize) };
+            let out_adv = if out_cap == 0 { if next_out == out_start { 0 } else { usize::MAX } } else { (next_out as usize).wrapping_sub(out_start as usize) };
+            assert!(
+                in_adv == input.len().wrapping_sub(avail_in) && out_adv == out_cap.wrapping_sub(avail_out) && in_adv <= input.len() && out_adv <= out_cap,
+                "cursor accounting: pointers advanced by {} / {}, counters decreased by {} / {}",
+                in_adv,
+                out_adv,
+                input.len().wrapping_sub(avail_in),
+                out_cap.wrapping_sub(avail_out)
+            );
+            outbuf.truncate(out_adv);
+            (r != 0, in_adv, outbuf, total_out as i64)
+        }
+        fn take(&mut self, n: usize) -> Vec<u8> {
+            let mut size = n;
+            let p = unsafe { BrotliEncoderTakeOutput(self.st, &mut size) };
+            if size == 0 {
+                Vec::new()
+            } else {
+                unsafe { std::slice::from_raw_parts(p, size).to_vec() }
+            }
+        }
+        fn finished(&mut self) -> bool {
+            unsafe { BrotliEncoderIsFinished(self.st) != 0 }
+        }
+        fn more(&mut self) -> bool {
+            unsafe { BrotliEncoderHasMoreOutput(self.st) != 0 }
+        }
+    }
+}
+
+/// physical script (same format as `Script`) through any `Enc`; one compact record per call
+/// "kind ret offered consumed producedhex fin more total_out"
+pub fn run_physical<E: Enc>(e: &mut E, sc: &Script) -> (Vec<String>, Vec<u8>) {
+    let mut recs = Vec::new();
+    let mut emitted = Vec::new();
+    for (k, v) in &sc.params {
+        e.set_param(*k, *v);
+    }
+    let mut cursor = 0usize;
+    let mut mcursor = 0usize;
+    let mut meta_left: usize = 0;
+    let mut last_total: i64 = 0;
+    for call in &sc.calls {
+        let r = panic::catch_unwind(AssertUnwindSafe(|| match call {
+            Call::SetParam(k, v) => {
+                let b = e.set_param(*k, *v);
+                format!("s {} 0 0 - {} {} {}", b as u8, e.finished() as u8, e.more() as u8, last_total)
+            }
+            Call::Take(n) => {
+                let bs = e.take(*n);
+                emitted.extend_from_slice(&bs);
+                format!("t 1 0 0 {} {} {} {}", if bs.is_empty() { "-".to_string() } else { hex(&bs) }, e.finished() as u8, e.more() as u8, last_total)
+            }
+            Call::Stream { op, inl, out_cap } => {
+                let is_meta = *op == 3;
+                let want = match inl {
+                    InLen::N(n) => *n,
+                    InLen::Remaining => e.remaining_meta().unwrap_or(meta_left),
+                };
+                let inbuf: Vec<u8> = if is_meta {
+                    (mcursor..mcursor + want).map(meta_byte).collect()
+                } else {
+                    sc.data[cursor..(cursor + want).min(sc.data.len())].to_vec()
+                };
+                let (ret, consumed, produced, tot) = e.stream(*op, &inbuf, *out_cap);
+                if is_meta {
+                    mcursor += consumed;
+                    if ret {
+                        if let InLen::N(n) = inl {
+                            if meta_left == 0 {
+                                meta_left = *n;
+                            }
+                        }
+                        meta_left = meta_left.saturating_sub(consumed);
+                    }
+                } else {
+                    cursor += consumed;
+                }
+                emitted.extend_from_slice(&produced);
+                last_total = tot;
+                format!(
+                    "c {} {} {} {} {} {} {}",
+                    ret as u8,
+                    inbuf.len(),
+                    consumed,
+                    if produced.is_empty() { "-".to_string() } else { hex(&produced) },
+                    e.finished() as u8,
+                    e.more() as u8,
+                    tot
+                )
+            }
+        }));
+        match r {
+            Ok(s) => recs.push(s),
+            Err(err) => {
+                recs.push(panic_msg(err));
+                break;
+            }
+        }
+    }
+    (recs, emitted)
+}
+
+/// logical script: each (op, chunk) is repeated with the output capacities of `caps` (cycled)
+/// until its input is consumed and, for flush / finish / metadata, nothing is pending.
+/// `take` > 0: stream calls get no output space and output is fetched with take_output(take).
+pub struct Logical {
+    pub params: Vec<(u32, u32)>,
+    pub data: Vec<u8>,
+    pub calls: Vec<(u8, usize)>,
+    pub caps: Vec<usize>,
+    pub take: usize,
+}
+pub fn run_logical<E: Enc>(e: &mut E, lg: &Logical) -> (Vec<u8>, usize, bool) {
+    for (k, v) in &lg.params {
+        e.set_param(*k, *v);
+    }
+    let mut emitted = Vec::new();
+    let mut cursor = 0usize;
+    let mut mcursor = 0usize;
+    let mut ncalls = 0usize;
+    let mut ci = 0usize;
+    let mut ok = true;
+    'outer: for (op, chunk) in &lg.calls {
+        let is_meta = *op == 3;
+        let mut inbuf: Vec<u8> = if is_meta {
+            let v = (mcursor..mcursor + *chunk).map(meta_byte).collect();
+            mcursor += *chunk;
+            v
+        } else {
+            let end = (cursor + *chunk).min(lg.data.len());
+            let v = lg.data[cursor..end].to_vec();
+            cursor = end;
+            v
+        };
+        let mut stall = 0usize;
+        loop {
+            let cap = if lg.take > 0 { 0 } else { lg.caps[ci % lg.caps.len()] };
+            ci += 1;
+            ncalls += 1;
+            let (ret, consumed, produced, _) = e.stream(*op, &inbuf, cap);
+            if !ret {
+                ok = false;
+                break 'outer;
+            }
+            emitted.extend_from_slice(&produced);
+            inbuf.drain(..consumed);
+            let mut took = 0usize;
+            if lg.take > 0 {
+                while e.more() {
+                    let bs = e.take(lg.take);
+                    took += bs.len();
+                    emitted.extend_from_slice(&bs);
+                    if bs.is_empty() {
+                        break;
+                    }
+                }
+            }
+            // encode.h: "If output is acquired via BrotliEncoderTakeOutput, then operation should be
+            // repeated after output buffer is drained": a request is complete when a call returns
+            // with its input consumed and nothing pending
+            let done = inbuf.is_empty() && (*op == 0 || (!e.more() && took == 0));
+            if done {
+                break;
+            }
+            if consumed == 0 && produced.is_empty() && took == 0 {
+                stall += 1;
+                if stall > lg.caps.len() + 2 {
+                    ok = false;
+                    break 'outer;
+                }
+            } else {
+                stall = 0;
+            }
+            if ncalls > 50_000_000 {
+                ok = false;
+                break 'outer;
+            }
+        }
+    }
+    (emitted, ncalls, ok)
+}
